@@ -20,7 +20,7 @@ RULE = ("every Exception subclass of builtins and Pyro5.errors x argument tuples
 ASSUMPTIONS = ["classes that cannot be constructed from the value domain (e.g. ExceptionGroup) are counted as skipped",
                "StopIteration raised from an iterator's __next__ is the end of the stream, not an exception, so it is not used for the stream kind",
                "builtin slot attributes (OSError.filename, ImportError.name, ...) are neither args nor custom attributes"]
-REQUIRED_REACH = ["proxies_switched_serializer_on_live_connection", "chained_exceptions_ok", "aftermath_cases", "concurrent_exceptions_checked", "exc_ok", "kind_plain", "kind_propget", "kind_propset", "kind_batch", "kind_stream", "unserialisable_ok", "unknown_class_ok", "next_call_ok", "codec_baseexc_ok", "handover_cases_ok", "big_batches"]
+REQUIRED_REACH = ["reraised_exception_objects_ok", "proxies_switched_serializer_on_live_connection", "chained_exceptions_ok", "aftermath_cases", "concurrent_exceptions_checked", "exc_ok", "kind_plain", "kind_propget", "kind_propset", "kind_batch", "kind_stream", "unserialisable_ok", "unknown_class_ok", "next_call_ok", "codec_baseexc_ok", "handover_cases_ok", "big_batches"]
 SHARD_TIMEOUT = {"quick": 240, "thorough": 2800}
 
 ARG_SHAPES = [(), ("msg",), ("msg", 2), (2, "strerror"), ("é\x00x", [1, {"k": None}], 2 ** 70, 1.5), ({"d": [1, 2.5, "s"]},), (None,), ("a", "b", "c", "d", "e", "f")]
@@ -161,6 +161,10 @@ def make_service(P, registry):
 
         def raise_shared(self):
             # one exception OBJECT for every caller (a cached failure, a module-level singleton error): several workers report it at once
+            raise SHARED_FAILURE.with_traceback(None)
+
+        def raise_shared_elsewhere(self):
+            # the same exception object again, raised from another place (a stored failure re-raised by another accessor)
             raise SHARED_FAILURE.with_traceback(None)
 
         def echo(self, token):
@@ -346,6 +350,22 @@ def chained_phase(fx, p, sername, registry, rec):
                                   sername, clsname, args, causekind, attrs, got), pay)
                 return
             rec.count("chained_exceptions_ok")
+    # one exception OBJECT raised twice, from two places: each time the caller gets the remote traceback of THAT failure
+    for first, second in (("raise_shared", "raise_shared_elsewhere"), ("raise_shared_elsewhere", "raise_shared")):
+        texts = []
+        for m in (first, second):
+            try:
+                getattr(p, m)()
+                texts.append(None)
+            except Exception as x:
+                texts.append("".join(getattr(x, "_pyroTraceback", None) or []))
+        rec.case(("reraised-object", first, second, sername, fx.servertype), nontrivial=True)
+        import re as _re
+        if texts[1] is None or not _re.search(r"\b%s\b" % second, texts[1]):
+            rec.violation("remote-traceback-of-another-failure", "%s: one exception object was raised by %s and then by %s; the remote traceback that came with the second failure does not mention %s: %s" % (
+                sername, first, second, second, core.short(texts[1], 400)), {"reraised": True, "serializer": sername, "servertype": fx.servertype})
+            return
+        rec.count("reraised_exception_objects_ok")
 
 
 def check_unserialisable(fx, p, sername, extra, clsname, rec, token, registry):
